@@ -123,7 +123,7 @@ func containerFactsOnPath(pa core.Path, typ string) map[ssa.Value]map[int64]tagV
 			arg := core.StripConv(c.Args[1])
 			if n, isK := core.ConstInt(arg); isK {
 				tv = tagVal{true, n}
-			} else if call, isC := arg.(*ssa.Call); isC && core.Callee(call) != nil && core.Callee(call).Name() == "Byte" && len(call.Call.Args) == 1 {
+			} else if call, isC := arg.(*ssa.Call); isC && core.Callee(call) != nil && cn(core.Callee(call)) == "Byte" && len(call.Call.Args) == 1 {
 				inner := core.StripConv(call.Call.Args[0])
 				if n, isK := core.ConstInt(inner); isK {
 					tv = tagVal{true, n}
@@ -547,7 +547,7 @@ func c03r3(c *core.Ctx) {
 				continue
 			}
 			allowed := map[string]bool{"GenerateSharedKeyWithOtherPublicKey": fld == "SharedKey" || fld == "OtherPublicKey", "SetupEncryptionKey": fld == "EncryptionKey", "NewVerifySession": fld == "PublicKey" || fld == "PrivateKey"}
-			ok := allowed[f.Name()] && (core.TypeIs(recvType(f), tVerifySess) || f.Name() == "NewVerifySession")
+			ok := allowed[cn(f)] && (core.TypeIs(recvType(f), tVerifySess) || cn(f) == "NewVerifySession")
 			c.Check(ok, "write:VerifySession."+fld+"@"+fname(f), st.Pos(), "written only by its designated method", "VerifySession."+fld+" is written outside its designated method")
 		}
 	}
@@ -634,7 +634,7 @@ func c03r4(c *core.Ctx) {
 		}
 		isGetter := func(v ssa.Value) bool {
 			for _, s := range core.Sources(v) {
-				if call, ok := s.(*ssa.Call); ok && core.Callee(call) != nil && core.Callee(call).Name() == spec.getter {
+				if call, ok := s.(*ssa.Call); ok && core.Callee(call) != nil && cn(core.Callee(call)) == spec.getter {
 					return true
 				}
 			}
@@ -642,7 +642,7 @@ func c03r4(c *core.Ctx) {
 		}
 		nonNil := core.NonNilFact(isGetter)
 		isNil := core.IsNilFact(isGetter)
-		encSites := core.FindCalls(f, func(i ssa.Instruction) bool { return core.Callee(i) != nil && core.Callee(i).Name() == spec.enc })
+		encSites := core.FindCalls(f, func(i ssa.Instruction) bool { return core.Callee(i) != nil && cn(core.Callee(i)) == spec.enc })
 		rawSites := core.FindCalls(f, func(i ssa.Instruction) bool {
 			if !core.IsInvoke(i, "net.Conn", spec.name) {
 				return false
